@@ -179,6 +179,8 @@ structure SwInv (top : Top) (l : List Nat) : Prop where
   size : top.sw.size = top.xterms.size + 1
   /-- the handler is installed exactly while somebody observes -/
   handler : top.swHandler = top.swFirst.isSome
+  /-- a further terminal that has not been freed is referred to by the application -/
+  xapp : ∀ (k : Nat) (x : XTerm), top.xterms[k]? = some x → x.freed = false → 1 ≤ x.appRefs
 
 /-- Between two operations: nothing has failed, the chain invariant holds, and a main terminal that has been freed
     has left the list. -/
@@ -186,7 +188,7 @@ def SwOk (top : Top) : Prop :=
   top.fail = none ∧ ∃ l, SwInv top l ∧ (top.st.term.freed = true → 0 ∉ l)
 
 theorem swOk_init : SwOk ({} : Top) := by
-  refine ⟨rfl, [], ⟨trivial, List.nodup_nil, by simp, ?_, by simp, rfl, rfl⟩, by simp⟩
+  refine ⟨rfl, [], ⟨trivial, List.nodup_nil, by simp, ?_, by simp, rfl, rfl, by intro k x hx; simp at hx⟩, by simp⟩
   intro c _
   unfold swNext swObs swNode
   by_cases hc : c = 0
@@ -212,7 +214,7 @@ theorem SwInv.of_same {a b : Top} {l : List Nat} (inv : SwInv a l) (h : SwSame a
   have hn : swNext b = swNext a := by funext c; unfold swNext swNode; rw [h.sw]
   have ho : swObs b = swObs a := by funext c; unfold swObs swNode; rw [h.sw]
   refine ⟨by rw [hn, h.first]; exact inv.chain, inv.nodup, ?_, ?_, ?_, by rw [h.sw, h.xterms]; exact inv.size,
-    by rw [h.handler, h.first]; exact inv.handler⟩
+    by rw [h.handler, h.first]; exact inv.handler, by rw [h.xterms]; exact inv.xapp⟩
   · intro c hc; rw [h.sw, ho]; exact inv.mem c hc
   · intro c hc; rw [hn, ho]; exact inv.out c hc
   · intro c hc h0; rw [swFreed_of_same h c h0]; exact inv.live c hc h0
@@ -472,7 +474,7 @@ theorem swObserve_ok {top : Top} {l : List Nat} (inv : SwInv top l) (hl : AllLiv
     have hch := chain_append (first := top2.swFirst) (next := swNext top2) (tid := tid) (by rw [h2next]; exact hnext) l none
       (by rw [h2next, h2first]; exact inv.chain) hnl inv.nodup (by intro p hp; cases hp)
     have ss := swStore_same top2 (lastPtr none l) (some tid)
-    refine ⟨l ++ [tid], ⟨?_, ?_, ?_, ?_, ?_, ?_, ?_⟩, by rw [ss.2.2.1, h2fail], by rw [ss.2.2.2.1, h2st], by rw [ss.2.1, h2x], ?_⟩
+    refine ⟨l ++ [tid], ⟨?_, ?_, ?_, ?_, ?_, ?_, ?_, by rw [ss.2.1, h2x]; exact inv.xapp⟩, by rw [ss.2.2.1, h2fail], by rw [ss.2.2.2.1, h2st], by rw [ss.2.1, h2x], ?_⟩
     · rw [swStore_next _ _ _ hptr, swStore_first]
       exact hch
     · rw [List.nodup_append]
@@ -638,7 +640,7 @@ theorem swUnobserve_ok {tc : TCfg} (hc : tc.sigwinchClearsNext = true) {top : To
       simp only [htlt, and_true, h3node]
     have hSnext : swNext topS = storeNext (swNext top) (lastPtr none pre) (swNext top tid) := swStore_next _ _ _ hptr
     have hSobs : swObs topS = swObs top := swStore_obs _ _ _
-    refine ⟨pre ++ post, ⟨?_, ?_, ?_, ?_, ?_, ?_, ?_⟩, by rw [s4.2.2.2.1]; exact h3fail, by rw [s4.2.2.2.2.1]; exact h3st,
+    refine ⟨pre ++ post, ⟨?_, ?_, ?_, ?_, ?_, ?_, ?_, by rw [s4.2.2.1, h3x]; exact inv.xapp⟩, by rw [s4.2.2.2.1]; exact h3fail, by rw [s4.2.2.2.2.1]; exact h3st,
       by rw [s4.2.2.1]; exact h3x, ?_⟩
     · rw [s4.1, h3first, swStore_first]
       refine ChainF.congr hch ?_
@@ -756,10 +758,11 @@ theorem SwOk.of_same {a b : Top} (h : SwOk a) (s : SwSame a b) (ht : b.st.term.f
 
 theorem SwInv.of_nodes {a b : Top} {l : List Nat} (inv : SwInv a l) (hn : ∀ c, swNode b c = swNode a c)
     (hsz : a.sw.size ≤ b.sw.size) (hf : b.swFirst = a.swFirst) (hh : b.swHandler = a.swHandler)
-    (hs : b.sw.size = b.xterms.size + 1) (hlive : ∀ c ∈ l, c ≠ 0 → swFreed b c = false) : SwInv b l := by
+    (hs : b.sw.size = b.xterms.size + 1) (hlive : ∀ c ∈ l, c ≠ 0 → swFreed b c = false)
+    (hxa : ∀ (k : Nat) (x : XTerm), b.xterms[k]? = some x → x.freed = false → 1 ≤ x.appRefs) : SwInv b l := by
   have hnx : swNext b = swNext a := by funext c; unfold swNext; rw [hn]
   have hob : swObs b = swObs a := by funext c; unfold swObs; rw [hn]
-  refine ⟨by rw [hnx, hf]; exact inv.chain, inv.nodup, ?_, ?_, hlive, hs, by rw [hh, hf]; exact inv.handler⟩
+  refine ⟨by rw [hnx, hf]; exact inv.chain, inv.nodup, ?_, ?_, hlive, hs, by rw [hh, hf]; exact inv.handler, hxa⟩
   · intro c hc
     rw [hob]
     exact ⟨Nat.lt_of_lt_of_le (inv.mem c hc).1 hsz, (inv.mem c hc).2⟩
@@ -836,7 +839,15 @@ theorem swOk_xUnref {tc : TCfg} (hc : tc.sigwinchClearsNext = true) {top : Top} 
     · rw [if_pos h1]
       refine ⟨?_, rfl⟩
       obtain ⟨hf, l, inv, h0⟩ := h
-      refine ⟨hf, l, inv.of_nodes (fun _ => rfl) (Nat.le_refl _) rfl rfl ?_ ?_, h0⟩
+      refine ⟨hf, l, inv.of_nodes (fun _ => rfl) (Nat.le_refl _) rfl rfl ?_ ?_ (by
+        intro j y hy hyf
+        have hy' : (top.xterms.setIfInBounds k { x with appRefs := x.appRefs - 1 })[j]? = some y := hy
+        rw [Array.getElem?_setIfInBounds] at hy'
+        split at hy'
+        · split at hy'
+          · cases hy'; show 1 ≤ x.appRefs - 1; omega
+          · cases hy'
+        · exact inv.xapp j y hy' hyf), h0⟩
       · show top.sw.size = (top.xterms.setIfInBounds k _).size + 1
         rw [Array.size_setIfInBounds]; exact inv.size
       · intro c hcm h0'
@@ -861,7 +872,15 @@ theorem swOk_xUnref {tc : TCfg} (hc : tc.sigwinchClearsNext = true) {top : Top} 
       obtain ⟨hf, l, inv, h0⟩ := hok
       have : ¬ (swUnobserve tc top (k + 1)).fail.isSome = true := by rw [hf]; simp
       rw [if_neg this]
-      refine ⟨⟨hf, l, inv.of_nodes (fun _ => rfl) (Nat.le_refl _) rfl rfl ?_ ?_, h0⟩, hst⟩
+      refine ⟨⟨hf, l, inv.of_nodes (fun _ => rfl) (Nat.le_refl _) rfl rfl ?_ ?_ (by
+        intro j y hy hyf
+        have hy' : ((swUnobserve tc top (k + 1)).xterms.setIfInBounds k { x with appRefs := 0, freed := true })[j]? = some y := hy
+        rw [Array.getElem?_setIfInBounds] at hy'
+        split at hy'
+        · split at hy'
+          · cases hy'; cases hyf
+          · cases hy'
+        · exact inv.xapp j y hy' hyf), h0⟩, hst⟩
       · show (swUnobserve tc top (k + 1)).sw.size = ((swUnobserve tc top (k + 1)).xterms.setIfInBounds k _).size + 1
         rw [Array.size_setIfInBounds]; exact inv.size
       · intro c hcm h0'
@@ -883,7 +902,13 @@ theorem swOk_xUnref {tc : TCfg} (hc : tc.sigwinchClearsNext = true) {top : Top} 
 theorem swOk_xnew {top : Top} (h : SwOk top) :
     SwOk { top with xterms := top.xterms.push {}, sw := top.sw ++ Array.replicate (top.xterms.size + 2 - top.sw.size) {} } := by
   obtain ⟨hf, l, inv, h0⟩ := h
-  refine ⟨hf, l, inv.of_nodes ?_ ?_ rfl rfl ?_ ?_, h0⟩
+  refine ⟨hf, l, inv.of_nodes ?_ ?_ rfl rfl ?_ ?_ (by
+    intro j y hy hyf
+    have hy' : (top.xterms.push {})[j]? = some y := hy
+    rw [Array.getElem?_push] at hy'
+    split at hy'
+    · cases hy'; exact Nat.le_refl 1
+    · exact inv.xapp j y hy' hyf), h0⟩
   · intro c
     unfold swNode
     show ((top.sw ++ Array.replicate (top.xterms.size + 2 - top.sw.size) ({} : SwNode))[c]?).getD {} = (top.sw[c]?).getD {}
@@ -917,7 +942,15 @@ theorem swOk_xnew {top : Top} (h : SwOk top) :
 theorem swOk_xref {top : Top} (h : SwOk top) (k : Nat) :
     SwOk { top with xterms := top.xterms.modify k (fun x => { x with appRefs := x.appRefs + 1 }) } := by
   obtain ⟨hf, l, inv, h0⟩ := h
-  refine ⟨hf, l, inv.of_nodes (fun _ => rfl) (Nat.le_refl _) rfl rfl ?_ ?_, h0⟩
+  refine ⟨hf, l, inv.of_nodes (fun _ => rfl) (Nat.le_refl _) rfl rfl ?_ ?_ (by
+    intro j y hy hyf
+    have hy' : (top.xterms.modify k (fun x => { x with appRefs := x.appRefs + 1 }))[j]? = some y := hy
+    rw [Array.getElem?_modify] at hy'
+    split at hy'
+    · cases hx : top.xterms[j]? with
+      | none => rw [hx] at hy'; cases hy'
+      | some x => rw [hx] at hy'; cases hy'; show 1 ≤ x.appRefs + 1; omega
+    · exact inv.xapp j y hy' hyf), h0⟩
   · show top.sw.size = (top.xterms.modify k _).size + 1
     rw [Array.size_modify]; exact inv.size
   · intro c hcm h0'
